@@ -591,6 +591,14 @@ func TestC04Variations(t *testing.T) {
 			}
 		}
 		doc := ttlvref.WriteElemXML(e)
+		if rapid.Bool().Draw(rt, "reformat") {
+			// the same document in another, equivalent XML serialisation (leaves not self-closing, white space and
+			// comments inside and between elements, attribute order)
+			var b bytes.Buffer
+			writeElemXMLVariant(rt, &b, e, 0)
+			doc = b.Bytes()
+			notes = append(notes, "format:equivalent-serialisation")
+		}
 		sig, accepted, err := vectorRoundTrip(e, doc)
 		labels := []string{fmt.Sprintf("accepted=%v", accepted)}
 		if sig == "harness-cannot-read-input" {
@@ -701,4 +709,58 @@ func nonZero(l *ttlvref.Elem) {
 	case "BigInteger":
 		l.Value = "0000000000000001"
 	}
+}
+
+func xmlEsc(s string) string {
+	return strings.NewReplacer("&", "&amp;", "<", "&lt;", ">", "&gt;", `"`, "&quot;", "\t", "&#x9;", "\n", "&#xA;", "\r", "&#xD;").Replace(s)
+}
+
+// writeElemXMLVariant writes an equivalent XML serialisation of the element tree, drawing the lexical freedoms XML leaves.
+func writeElemXMLVariant(rt *rapid.T, b *bytes.Buffer, e *ttlvref.Elem, depth int) {
+	ws := func() {
+		switch rapid.IntRange(0, 3).Draw(rt, "ws") {
+		case 0:
+			b.WriteString("\n" + strings.Repeat("  ", depth))
+		case 1:
+			b.WriteString(" <!-- note --> ")
+		}
+	}
+	ws()
+	b.WriteString("<" + e.Name)
+	attrs := [][2]string{}
+	if e.TagAt != "" {
+		attrs = append(attrs, [2]string{"tag", e.TagAt})
+	}
+	if e.Type != "" {
+		attrs = append(attrs, [2]string{"type", e.Type})
+	}
+	if e.HasValue {
+		attrs = append(attrs, [2]string{"value", e.Value})
+	}
+	if len(attrs) > 1 && rapid.Bool().Draw(rt, "attrorder") {
+		attrs[0], attrs[len(attrs)-1] = attrs[len(attrs)-1], attrs[0]
+	}
+	for _, a := range attrs {
+		q := `"`
+		fmt.Fprintf(b, " %s=%s%s%s", a[0], q, xmlEsc(a[1]), q)
+	}
+	if len(e.Kids) == 0 && e.Type != "" {
+		switch rapid.IntRange(0, 3).Draw(rt, "leafform") {
+		case 0:
+			b.WriteString("/>")
+		case 1:
+			b.WriteString("></" + e.Name + ">")
+		case 2:
+			b.WriteString(">\n" + strings.Repeat("  ", depth) + "</" + e.Name + ">")
+		default:
+			b.WriteString("><!-- leaf --></" + e.Name + " >")
+		}
+		return
+	}
+	b.WriteString(">")
+	for _, k := range e.Kids {
+		writeElemXMLVariant(rt, b, k, depth+1)
+	}
+	ws()
+	b.WriteString("</" + e.Name + ">")
 }
